@@ -16,6 +16,22 @@ import (
 
 // C17 — independent instances are safe to use concurrently.  See DESIGN.md section 7.
 
+// perTaskSpelling gives every task its own (equivalent) spelling of the paths of
+// file-backed lexers; the Input values are copied, histories share them.
+func perTaskSpelling(tasks []harness.TaskSpec) {
+	for ti := range tasks {
+		ops := append([]harness.Op{}, tasks[ti].Ops...)
+		for oi := range ops {
+			if ops[oi].In != nil && ops[oi].In.FromFile {
+				in := *ops[oi].In
+				in.Spelling = ti % 3
+				ops[oi].In = &in
+			}
+		}
+		tasks[ti].Ops = ops
+	}
+}
+
 type c17Replay struct {
 	Grammar string      `json:"grammar"`
 	Job     harness.Job `json:"job"`
@@ -139,9 +155,11 @@ func RunC17(c *Ctx) error {
 		nJobs = 600
 	}
 	type batch struct {
-		drv  *sut.Driver
-		jobs []harness.Job
-		out  *batchOut
+		drv     *sut.Driver
+		jobs    []harness.Job
+		out     *batchOut
+		isoOf   *batch // this batch is the isolated single-task reference of a task of that cold-start job
+		isoTask int
 	}
 	var batches []*batch
 	for _, drv := range drvs.List {
@@ -159,6 +177,7 @@ func RunC17(c *Ctx) error {
 				for t := 0; t < nt; t++ {
 					job.Tasks = append(job.Tasks, harness.TaskSpec{Ops: pool.taskOps(r.Fork("t"))})
 				}
+				perTaskSpelling(job.Tasks)
 				job.Schedule = c17Schedule(r, nt)
 				job.Free = free
 				jobs = append(jobs, job)
@@ -194,7 +213,23 @@ func RunC17(c *Ctx) error {
 					// first task runs a little, then the others start
 					job.Schedule = gsim.Schedule{Policy: "preempt", Points: [][2]int{{1 + r.Intn(40), 1 % nt}, {60 + r.Intn(200), 0}}}
 				}
-				batches = append(batches, &batch{drv: drv, jobs: []harness.Job{job}})
+				perTaskSpelling(job.Tasks)
+				cold := &batch{drv: drv, jobs: []harness.Job{job}}
+				batches = append(batches, cold)
+				// isolated references: every task of a cold-start job also runs all alone in a
+				// process of its own; what it observes there is what it "would obtain alone"
+				// even if the generated code keeps process-wide state
+				if k%2 == 0 {
+					for ti := range job.Tasks {
+						iso := job
+						// same task numbering (task ids show in injected error texts), the others idle
+						iso.Tasks = make([]harness.TaskSpec, len(job.Tasks))
+						iso.Tasks[ti] = job.Tasks[ti]
+						iso.Schedule = gsim.Schedule{Policy: "preempt"}
+						b := &batch{drv: drv, jobs: []harness.Job{iso}, isoOf: cold, isoTask: ti}
+						batches = append(batches, b)
+					}
+				}
 			}
 		}
 	}
@@ -285,6 +320,24 @@ func RunC17(c *Ctx) error {
 				Plan:   c17Replay{Grammar: b.drv.Grammar.ID, Job: job}})
 		}
 	}
+	isoCompared := 0
+	for _, b := range batches {
+		if b.isoOf == nil || b.out == nil || b.isoOf.out == nil || len(b.out.Results) != 1 || len(b.isoOf.out.Results) != 1 {
+			continue
+		}
+		alone := b.out.Results[0]
+		sched := b.isoOf.out.Results[0]
+		if b.isoTask >= len(alone.TaskDigest) || b.isoTask >= len(sched.TaskDigest) {
+			continue
+		}
+		isoCompared++
+		if alone.TaskDigest[b.isoTask] != sched.TaskDigest[b.isoTask] {
+			job := b.isoOf.jobs[0]
+			c.Report(&Violation{Class: "differs-from-isolated-process", Key: map[string]string{"grammar": b.drv.Grammar.ID}, Size: c17Size(job),
+				Detail: fmt.Sprintf("%s/%s: task %d of %d observes something else under the schedule than the same task observes all alone in a process of its own (process-wide state in the generated code?)", b.drv.Grammar.ID, job.Variant, b.isoTask, len(job.Tasks)),
+				Plan:   c17Replay{Grammar: b.drv.Grammar.ID, Job: job}})
+		}
+	}
 	c.Logf("%d scheduled runs, %d task observations compared, %d yields scheduled, %d context switches, %d distinct schedules, race reports %d, %d violations", runs, evals, steps, switches, len(schedules), raceReports, c.NumViolations())
 	type kv struct {
 		k string
@@ -302,23 +355,24 @@ func RunC17(c *Ctx) error {
 		}
 	}
 	cov := map[string]interface{}{
-		"evaluations":                         runs,
-		"distinct_nontrivial":                 len(schedules),
-		"rule":                                "one evaluation = one scheduled run of 2-6 tasks (each with its own lexer, parser, Context and inputs) under one seeded schedule, judged by: every task observes exactly what it observes alone (before and after), the race detector reports nothing, action arguments and $Context belong to the calling task; non-trivial = at least one context switch between tasks happened; distinct by (grammar, variant, hash of the executed task-id sequence)",
-		"samples":                             samples,
-		"task_observations_compared":          evals,
-		"yields_scheduled":                    steps,
-		"context_switches":                    switches,
-		"switches_by_function_of_parked_task": top,
-		"functions_with_a_switch_inside":      len(switchFunc),
-		"race_reports":                        raceReports,
-		"grammars":                            len(grammars),
-		"variants":                            len(variants),
-		"observation_mode_real_goroutines":    free,
-		"census_generated_code":               map[string]interface{}{"go_statements": drvs.Census.GoStmts, "channel_ops": drvs.Census.ChanOps, "selects": drvs.Census.Selects, "sync_uses": drvs.Census.SyncUses},
-		"schedule_policies":                   "uniform choice at every yield; run-to-completion with 1-3 preemption points (PCT-style); uniform with one starved task",
-		"fault_kinds_fired":                   map[string]int{"preemption": switches},
-		"components":                          "real code: generated lexer/parser/errors/token built with -race (yield points at every function entry and loop head), Go runtime, race detector; replaced: goroutine scheduler (seeded cooperative; hand-offs hidden from the detector); stub: action callbacks, scanner for token-list inputs",
+		"evaluations":                          runs,
+		"distinct_nontrivial":                  len(schedules),
+		"rule":                                 "one evaluation = one scheduled run of 2-6 tasks (each with its own lexer, parser, Context and inputs) under one seeded schedule, judged by: every task observes exactly what it observes alone (before and after), the race detector reports nothing, action arguments and $Context belong to the calling task; non-trivial = at least one context switch between tasks happened; distinct by (grammar, variant, hash of the executed task-id sequence)",
+		"samples":                              samples,
+		"task_observations_compared":           evals,
+		"yields_scheduled":                     steps,
+		"context_switches":                     switches,
+		"switches_by_function_of_parked_task":  top,
+		"functions_with_a_switch_inside":       len(switchFunc),
+		"race_reports":                         raceReports,
+		"tasks_compared_with_isolated_process": isoCompared,
+		"grammars":                             len(grammars),
+		"variants":                             len(variants),
+		"observation_mode_real_goroutines":     free,
+		"census_generated_code":                map[string]interface{}{"go_statements": drvs.Census.GoStmts, "channel_ops": drvs.Census.ChanOps, "selects": drvs.Census.Selects, "sync_uses": drvs.Census.SyncUses},
+		"schedule_policies":                    "uniform choice at every yield; run-to-completion with 1-3 preemption points (PCT-style); uniform with one starved task",
+		"fault_kinds_fired":                    map[string]int{"preemption": switches},
+		"components":                           "real code: generated lexer/parser/errors/token built with -race (yield points at every function entry and loop head), Go runtime, race detector; replaced: goroutine scheduler (seeded cooperative; hand-offs hidden from the detector); stub: action callbacks, scanner for token-list inputs",
 	}
 	return c.WriteEvidence("exploration", cov, []string{
 		"the race detector reports exactly conflicting accesses without happens-before among the accesses each run performs; hand-offs of the serialising scheduler are hidden from it (runtime.RaceDisable), synchronisation inside generated code stays visible",
